@@ -15,6 +15,17 @@ Listed (every occurrence, in every .py file under src/primaite):
                min()/max()/sum()/any()/all()/zip()/map()/filter()/join()/chain()/dict.fromkeys()/Starred/.pop(); detail = consumer + expr
   setEscape    a set-valued expression (or a container of sets) passed to a call whose callee is not resolved inside the tree, or
                returned from a function without a Set return annotation
+  spaceSample  `<…space>.sample()` / `.np_random`: gymnasium's per-space generator (lazily seeded from OS entropy)
+  torchRandom  torch.manual_seed / torch.rand* / randint / randperm / multinomial / normal / bernoulli calls
+  idOrder      an ORDERING use of an identifier-valued expression (uuid / MAC / connection id …): `<`/`>` comparison, or a
+               sorted()/min()/max()/.sort() call whose argument or key mentions one
+  idText       a use of the TEXT of an identifier: subscript/slice, string method, int()/len()/ord() on it
+
+Every site carries a FACT (`Gen.Nondet.facts`, same order as `sites`) - what the extractor could establish mechanically
+about it with a small syntactic data-flow check (see `Facts` below): generator family and evaluation time of a draw, the
+constant argument of `secrets.token_urlsafe`, the sinks a clock reading flows to, the keyword a set display is passed as,
+whether the module is outside the import closure of the runtime entry points, the iteration sites of a declared set
+name, the element type of an int-valued set, `hash()` being the body of `__hash__`.
 
 "Set-valued" is decided syntactically and by NAME: set()/frozenset() calls, set displays, set comprehensions, set algebra
 (.union/.intersection/.difference/.symmetric_difference/.copy on a set, `|&-^` with a set or keys-view operand), calls of
@@ -41,7 +52,17 @@ from harness.lib.core import SRC
 GEN_NAME = "Nondet"
 
 KINDS = ["uuid", "secrets", "clock", "timeMod", "idBuiltin", "hashBuiltin", "urandom", "pyRandom", "npRandom", "rngMethod",
-         "fsOrder", "concurrency", "setDecl", "setIter", "setEscape"]
+         "fsOrder", "concurrency", "setDecl", "setIter", "setEscape", "spaceSample", "torchRandom", "idOrder", "idText"]
+FAMS = ["py", "np", "torch", "derivedNp", "entropy", "space"]
+TORCH_RANDOM = {"manual_seed", "seed", "rand", "randn", "randint", "randperm", "rand_like", "randn_like", "randint_like", "multinomial",
+                "normal", "bernoulli", "poisson", "dropout"}
+# names that carry an unseeded identifier (uuid4 string, generated MAC, secrets-generated number)
+import re as _re
+ID_NAME = _re.compile(r"^(?:_?(?:\w+_)?uuid|mac_address|(?:src|dst|target|source|dest)_mac(?:_addr(?:ess)?)?|_?(?:connection|connection_request|query|session|"
+                      r"ssh_session|remote_session|local_session|request|folder|file)_(?:id|uuid)|identifier|icmp_identifier)$")
+STR_METHODS = {"split", "rsplit", "partition", "startswith", "endswith", "replace", "upper", "lower", "strip", "lstrip", "rstrip", "find",
+               "index", "encode", "zfill", "ljust", "rjust", "hex", "removeprefix", "removesuffix", "casefold"}
+RUNTIME_ROOTS = ["session/environment.py", "session/ray_envs.py", "game/game.py"]
 
 ITER_CONSUMERS = {"list", "tuple", "sorted", "enumerate", "iter", "next", "min", "max", "sum", "any", "all", "zip", "map",
                   "filter", "reversed", "chain", "from_iterable", "fromkeys", "join", "array", "asarray", "deque", "OrderedDict", "dict",
@@ -119,6 +140,335 @@ def _txt(e: ast.AST, cap: int = 90) -> str:
     return s if len(s) <= cap else s[:cap - 3] + "..."
 
 
+
+def _lb(b: bool) -> str:
+    return "true" if b else "false"
+
+
+def _lstr(x: str) -> str:
+    return '"' + x.replace("\\", "/").replace('"', "'") + '"'
+
+
+def _is_space_expr(e: ast.AST) -> bool:
+    d = _dotted(e)
+    last = d.split(".")[-1] if d else (e.func.attr if isinstance(e, ast.Call) and isinstance(e.func, ast.Attribute) else "")
+    return last == "space" or last.endswith("_space")
+
+
+def _is_identifier_expr(e: ast.AST) -> bool:
+    """uuid / MAC / connection-id valued, by NAME (terminal attribute or variable name)."""
+    if isinstance(e, ast.Attribute):
+        return bool(ID_NAME.match(e.attr)) and "_by_" not in e.attr      # `sessions_by_uuid` is a dict KEYED by uuids
+    if isinstance(e, ast.Name):
+        return bool(ID_NAME.match(e.id)) and "_by_" not in e.id
+    if isinstance(e, ast.Call) and isinstance(e.func, ast.Name) and e.func.id == "str" and e.args:
+        return _is_identifier_expr(e.args[0])
+    return False
+
+
+def _mentions_identifier(call: ast.Call) -> bool:
+    """a sorted()/min()/max()/.sort() call one of whose arguments, or whose key function, mentions an identifier-valued name"""
+    parts = list(call.args) + [k.value for k in call.keywords]
+    if isinstance(call.func, ast.Attribute) and call.func.attr == "sort":
+        parts.append(call.func.value)
+    for part in parts:
+        for n in ast.walk(part):
+            if isinstance(n, (ast.Attribute, ast.Name)) and _is_identifier_expr(n):
+                return True
+    return False
+
+
+def _const_int(e: ast.AST) -> Optional[int]:
+    """fold `int(32 / 1.3)`-like constant expressions; None if not constant"""
+    def ev(x):
+        if isinstance(x, ast.Constant) and isinstance(x.value, (int, float)) and not isinstance(x.value, bool):
+            return x.value
+        if isinstance(x, ast.BinOp) and isinstance(x.op, (ast.Add, ast.Sub, ast.Mult, ast.Div, ast.FloorDiv)):
+            a, b = ev(x.left), ev(x.right)
+            if a is None or b is None:
+                return None
+            try:
+                return {ast.Add: a + b, ast.Sub: a - b, ast.Mult: a * b, ast.Div: a / b, ast.FloorDiv: a // b}[type(x.op)]
+            except ZeroDivisionError:
+                return None
+        if isinstance(x, ast.Call) and isinstance(x.func, ast.Name) and x.func.id in ("int", "round") and len(x.args) == 1 and not x.keywords:
+            a = ev(x.args[0])
+            return None if a is None else (int(a) if x.func.id == "int" else round(a))
+        return None
+    v = ev(e)
+    return v if isinstance(v, int) else None
+
+
+LOG_METHODS = {"debug", "info", "warning", "error", "critical", "exception", "log"}
+
+
+class Flow:
+    """Where the VALUE of an expression can go: a small syntactic forward data-flow (taint) over the whole tree.
+    Carriers: method calls / attributes of the value, str()/repr()/format, f-strings, list/tuple displays, assignment to a
+    local (all later reads in the function), to an attribute or constructor keyword (every read of an attribute of that
+    NAME in the tree), to a dict entry with a constant key (every subscript with that key), return (every call of a function
+    of that name).  Sinks: `path` (operand of `/`, i.e. a directory/file name), `show` (print / PrettyTable.add_row), `log`
+    (logger methods).  Anything else is reported as `other:<what>` - the discharge then does not hold mechanically."""
+
+    def __init__(self, T: "Tree"):
+        self.T = T
+        self.sinks: Set[str] = set()
+        self.seen: Set[Tuple[str, int]] = set()
+
+    def follow(self, fi: FileInfo, node: ast.AST, depth: int = 0) -> None:
+        key = (fi.rel, id(node))
+        if key in self.seen:
+            return
+        self.seen.add(key)
+        if depth > 14:
+            self.sinks.add("other:depth")
+            return
+        par = self.T.parents_of(fi)
+        p = par.get(id(node))
+        if p is None:
+            return
+        d = depth + 1
+        if isinstance(p, ast.Attribute) and p.value is node:
+            return self.follow(fi, p, d)
+        if isinstance(p, ast.Call):
+            if p.func is node:                      # a method of the value is called: the result carries it
+                return self.follow(fi, p, d)
+            fname = p.func.attr if isinstance(p.func, ast.Attribute) else (p.func.id if isinstance(p.func, ast.Name) else "?")
+            if fname in ("str", "repr", "format", "int", "float"):
+                return self.follow(fi, p, d)
+            if fname == "print" or fname == "add_row":
+                self.sinks.add("show")
+                return
+            if fname in LOG_METHODS:
+                self.sinks.add("log")
+                return
+            self.sinks.add("other:argument of " + fname)
+            return
+        if isinstance(p, ast.keyword):
+            call = par.get(id(p))
+            fname = ""
+            if isinstance(call, ast.Call):
+                fname = call.func.attr if isinstance(call.func, ast.Attribute) else (call.func.id if isinstance(call.func, ast.Name) else "?")
+            if fname in LOG_METHODS:
+                self.sinks.add("log")
+                return
+            if p.arg:
+                return self.field(p.arg, d)       # constructor keyword = attribute of the object built
+            self.sinks.add("other:**kwargs")
+            return
+        if isinstance(p, ast.BinOp):
+            if isinstance(p.op, ast.Div):
+                self.sinks.add("path")
+            else:
+                self.sinks.add("other:arithmetic")
+            return
+        if isinstance(p, (ast.FormattedValue, ast.JoinedStr, ast.List, ast.Tuple, ast.Starred)):
+            return self.follow(fi, p, d)
+        if isinstance(p, ast.Dict):
+            for k, v in zip(p.keys, p.values):
+                if v is node:
+                    if isinstance(k, ast.Constant) and isinstance(k.value, str):
+                        self.key(k.value, d)
+                    else:
+                        self.sinks.add("other:dict value under a computed key")
+            return
+        if isinstance(p, (ast.Assign, ast.AnnAssign)):
+            targets = p.targets if isinstance(p, ast.Assign) else [p.target]
+            for t in targets:
+                if isinstance(t, ast.Name):
+                    fn = self.T.enclosing_func(fi, p)
+                    scope = fn if fn is not None else fi.tree
+                    for m in ast.walk(scope):
+                        if isinstance(m, ast.Name) and m.id == t.id and isinstance(m.ctx, ast.Load):
+                            self.follow(fi, m, d)
+                elif isinstance(t, ast.Attribute):
+                    self.field(t.attr, d)
+                elif isinstance(t, ast.Subscript) and isinstance(t.slice, ast.Constant) and isinstance(t.slice.value, str):
+                    self.key(t.slice.value, d)
+                else:
+                    self.sinks.add("other:assignment target")
+            return
+        if isinstance(p, ast.Return):
+            fn = self.T.enclosing_func(fi, p)
+            if fn is None or isinstance(fn, ast.Lambda):
+                self.sinks.add("other:return")
+                return
+            for fi2 in self.T.files:
+                for m in ast.walk(fi2.tree):
+                    if isinstance(m, ast.Call):
+                        nm = m.func.attr if isinstance(m.func, ast.Attribute) else (m.func.id if isinstance(m.func, ast.Name) else None)
+                        if nm == fn.name:
+                            self.follow(fi2, m, d)
+            return
+        if isinstance(p, ast.Expr):
+            return                                  # value discarded
+        self.sinks.add("other:" + type(p).__name__)
+
+    def field(self, attr: str, depth: int) -> None:
+        for fi2 in self.T.files:
+            for m in ast.walk(fi2.tree):
+                if isinstance(m, ast.Attribute) and m.attr == attr and isinstance(m.ctx, ast.Load):
+                    self.follow(fi2, m, depth)
+
+    def key(self, k: str, depth: int) -> None:
+        for fi2 in self.T.files:
+            for m in ast.walk(fi2.tree):
+                if isinstance(m, ast.Subscript) and isinstance(m.ctx, ast.Load) and isinstance(m.slice, ast.Constant) and m.slice.value == k:
+                    self.follow(fi2, m, depth)
+
+
+class Facts:
+    """The mechanical FACT attached to a site (a Lean term of type `Gen.Nondet.Fact`)."""
+
+    def __init__(self, sa: "ScopeAnalysis", parents):
+        self.sa, self.T, self.fi = sa, sa.T, sa.fi
+
+    def _chain(self, n: ast.AST):
+        par = self.T.parents_of(self.fi)
+        p = par.get(id(n))
+        while p is not None:
+            yield p
+            p = par.get(id(p))
+
+    def at_call(self, n: ast.AST) -> bool:
+        """evaluated when a function / lambda is CALLED (not when the module is imported or the class body executed)"""
+        return any(isinstance(p, (ast.FunctionDef, ast.AsyncFunctionDef, ast.Lambda)) for p in self._chain(n))
+
+    def guarded_generate(self, n: ast.AST) -> bool:
+        """inside the body of `if generate_seed_value:`"""
+        prev = n
+        for p in self._chain(n):
+            if isinstance(p, ast.If) and ast.unparse(p.test) == "generate_seed_value" and any(prev is b for b in p.body):
+                return True
+            prev = p
+        return False
+
+    def _rng_family(self, e: Optional[ast.AST]) -> str:
+        """family of a generator-valued expression: `np.random.default_rng(<np draw>)` / `default_rng()`"""
+        if e is None:
+            raise ValueError("generator `rng` without a recognisable origin")
+        for c in ast.walk(e):
+            if isinstance(c, ast.Call) and (_resolve(self.fi, c.func) or "").endswith("random.default_rng"):
+                if not c.args and not c.keywords:
+                    return "entropy"
+                inner = [x for a in c.args for x in ast.walk(a) if isinstance(x, ast.Call) and (_resolve(self.fi, x.func) or "").startswith("numpy.random.")]
+                if inner:
+                    return "derivedNp"
+                raise ValueError(f"default_rng argument not recognised: {ast.unparse(c)}")
+        raise ValueError(f"origin of generator not recognised: {ast.unparse(e)}")
+
+    def draw(self, n: ast.Call, q: str) -> str:
+        at, gd = _lb(self.at_call(n)), _lb(self.guarded_generate(n))
+        arg = _lstr(", ".join(ast.unparse(a) for a in n.args) + "".join(f", {k.arg}={ast.unparse(k.value)}" for k in n.keywords))
+        if q == "random.seed":
+            return f".seedCall .py {arg} {at}"
+        if q == "numpy.random.seed":
+            return f".seedCall .np {arg} {at}"
+        if q in ("torch.manual_seed", "torch.seed"):
+            return f".seedCall .torch {arg} {at}"
+        if q.startswith("torch."):
+            return f".draw .torch {at} {gd}"
+        if q == "space.sample":
+            # `x = <space>; x.seed(<numpy draw>); x.sample()` : the space's generator is derived from the seeded numpy generator
+            base = n.func.value
+            fn = self.T.enclosing_func(self.fi, n)
+            if isinstance(base, ast.Name) and fn is not None:
+                for m in ast.walk(fn):
+                    if (isinstance(m, ast.Call) and isinstance(m.func, ast.Attribute) and m.func.attr == "seed" and isinstance(m.func.value, ast.Name)
+                            and m.func.value.id == base.id and m.lineno < n.lineno and len(m.args) == 1
+                            and any(isinstance(x, ast.Call) and (_resolve(self.fi, x.func) or "").startswith("numpy.random.") for x in ast.walk(m.args[0]))):
+                        return f".draw .derivedNp {at} {gd}"
+            return f".draw .space {at} {gd}"
+        if q.startswith("random."):
+            return f".draw .py {at} {gd}"
+        if q.endswith("random.default_rng"):
+            return f".draw .{self._rng_family(n)} {at} {gd}"
+        if q.startswith("numpy.random"):
+            return f".draw .np {at} {gd}"
+        if q.startswith("rng."):
+            base = n.func.value
+            origin = None
+            if isinstance(base, ast.Name):      # a local: its assignment in the enclosing function
+                fn = self.T.enclosing_func(self.fi, n)
+                for m in ast.walk(fn if fn is not None else self.fi.tree):
+                    if isinstance(m, ast.Assign) and any(isinstance(t, ast.Name) and t.id == base.id for t in m.targets):
+                        origin = m.value
+            else:                                # self.rng: the class field of that name in this file
+                for m in ast.walk(self.fi.tree):
+                    if isinstance(m, ast.AnnAssign) and isinstance(m.target, ast.Name) and m.target.id == "rng" and m.value is not None:
+                        origin = m.value
+            return f".draw .{self._rng_family(origin)} {at} {gd}"
+        raise ValueError("unclassified draw " + q)
+
+    def eq_only(self, n: ast.AST) -> str:
+        """the value is an operand of `==` / `!=` / `in` / `not in` and nothing else"""
+        p = self.T.parents_of(self.fi).get(id(n))
+        if isinstance(p, ast.Compare) and all(isinstance(o, (ast.Eq, ast.NotEq, ast.In, ast.NotIn)) for o in p.ops):
+            return ".cmpEqOnly"
+        return ".none"
+
+    def secret(self, n: ast.Call, q: str) -> str:
+        if q == "secrets.token_urlsafe" and len(n.args) == 1:
+            v = _const_int(n.args[0])
+            if v is not None and v >= 0:
+                return f".constSecret {v}"
+        return ".none"
+
+    def reading(self, n: ast.Call) -> str:
+        fl = Flow(self.T)
+        fl.follow(self.fi, n)
+        return ".sinks [" + ", ".join(_lstr(x) for x in sorted(fl.sinks)) + "]"
+
+    def offline(self) -> str:
+        return ".offlineModule" if self.fi.rel not in self.T.runtime_closure() else ".none"
+
+    def hash_fact(self, n: ast.Call) -> str:
+        fn = self.T.enclosing_func(self.fi, n)
+        par = self.T.parents_of(self.fi).get(id(n))
+        if fn is not None and getattr(fn, "name", "") == "__hash__" and isinstance(par, ast.Return):
+            return f".hashDunder {_lstr(ast.unparse(n.args[0]))}"
+        if isinstance(par, ast.Expr):
+            return ".valueDiscarded"   # `hash(x)` as a statement: only whether it raises (hashability of the TYPE) can matter
+        return ".none"
+
+    def escape(self, n: ast.AST, p: Optional[ast.AST], parents) -> str:
+        if isinstance(n, ast.Set) and len(n.elts) == 1 and isinstance(n.elts[0], ast.Constant):
+            return ".singletonDisplay"
+        if isinstance(p, ast.keyword) and p.arg:
+            call = self.T.parents_of(self.fi).get(id(p))
+            if isinstance(call, ast.Call):
+                fname = call.func.attr if isinstance(call.func, ast.Attribute) else (call.func.id if isinstance(call.func, ast.Name) else "?")
+                return f".kwarg {_lstr(fname)} {_lstr(p.arg)}"
+        if isinstance(n, ast.Set) and len(n.elts) == 1 and isinstance(n.elts[0], ast.Constant):
+            return ".singletonDisplay"
+        return ".none"
+
+    def int_set(self, n: ast.AST) -> str:
+        """element type of an iterated set, when its annotation resolves to ints (`Port` = Annotated[int, …])"""
+        anns: List[str] = []
+        inner = n.args[0] if isinstance(n, ast.Call) and isinstance(n.func, ast.Name) and n.func.id in SET_BUILDERS and len(n.args) == 1 else n
+        if isinstance(inner, ast.Name):
+            fn = self.T.enclosing_func(self.fi, n)
+            while fn is not None and not anns:
+                if not isinstance(fn, ast.Lambda):
+                    for a in [*fn.args.posonlyargs, *fn.args.args, *fn.args.kwonlyargs]:
+                        if a.arg == inner.id and a.annotation is not None:
+                            anns.append(ast.unparse(a.annotation))
+                fn = self.T.enclosing_func(self.fi, fn)
+        elif isinstance(inner, ast.Attribute):
+            anns = list(self.T.field_annotations().get(inner.attr, []))
+        if isinstance(n, ast.Attribute) and self.T.never_written(n.attr):
+            return ".neverWritten"
+        if not anns:
+            return ".none"
+        leaves: Set[str] = set()
+        for a in anns:
+            leaves |= set(x for x in _re.split(r"[\[\],\s]+", a.replace("typing.", "")) if x) - {"Optional", "Union", "List", "Set", "list", "set", "FrozenSet", "frozenset", "None"}
+        if leaves and leaves <= {"Port", "int"} and ("Port" not in leaves or self.T.port_is_int()):
+            return f".intSet {_lstr(' '.join(sorted(leaves)))}"
+        return ".none"
+
+
 class Tree:
     """All files; global name tables; fixpoint over set-valued parameters."""
 
@@ -138,6 +488,114 @@ class Tree:
                     self.func_defs.setdefault(n.name, []).append((fi, n))
                     if _is_set_annotation(n.returns) == "set":
                         self.set_funcs.add(n.name)
+        self._parents: Dict[str, Dict[int, ast.AST]] = {}
+        self._closure: Optional[Set[str]] = None
+        self._field_ann: Optional[Dict[str, List[str]]] = None
+
+    def parents_of(self, fi: FileInfo) -> Dict[int, ast.AST]:
+        if fi.rel not in self._parents:
+            m: Dict[int, ast.AST] = {}
+            for n in ast.walk(fi.tree):
+                for ch in ast.iter_child_nodes(n):
+                    m[id(ch)] = n
+            self._parents[fi.rel] = m
+        return self._parents[fi.rel]
+
+    def enclosing_func(self, fi: FileInfo, node: ast.AST):
+        par = self.parents_of(fi)
+        p = par.get(id(node))
+        while p is not None and not isinstance(p, (ast.FunctionDef, ast.AsyncFunctionDef, ast.Lambda)):
+            p = par.get(id(p))
+        return p
+
+    def field_annotations(self) -> Dict[str, List[str]]:
+        """class-field name -> the texts of all its annotations in the tree"""
+        if self._field_ann is None:
+            out: Dict[str, List[str]] = {}
+            for fi in self.files:
+                for c in ast.walk(fi.tree):
+                    if isinstance(c, ast.ClassDef):
+                        for st in c.body:
+                            if isinstance(st, ast.AnnAssign) and isinstance(st.target, ast.Name):
+                                out.setdefault(st.target.id, []).append(ast.unparse(st.annotation))
+            self._field_ann = out
+        return self._field_ann
+
+    def never_written(self, attr: str) -> bool:
+        """no assignment to an attribute of this name anywhere in the tree (other than its annotated class-field declaration with a
+        default), and no mutator method called on it"""
+        for fi in self.files:
+            for n in ast.walk(fi.tree):
+                if isinstance(n, ast.Attribute) and n.attr == attr and isinstance(n.ctx, (ast.Store, ast.Del)):
+                    return False
+                if (isinstance(n, ast.Call) and isinstance(n.func, ast.Attribute) and n.func.attr in (SET_MUTATORS - {"issubset", "issuperset", "isdisjoint"}) | {"pop"}
+                        and isinstance(n.func.value, ast.Attribute) and n.func.value.attr == attr):
+                    return False
+                if isinstance(n, ast.keyword) and n.arg == attr:
+                    return False
+        return True
+
+    def port_is_int(self) -> bool:
+        """`Port` is declared as `Annotated[int, …]` in utils/validation/port.py"""
+        for fi in self.files:
+            if fi.rel == "utils/validation/port.py":
+                for st in fi.tree.body:
+                    tgt = st.target if isinstance(st, ast.AnnAssign) else (st.targets[0] if isinstance(st, ast.Assign) else None)
+                    if isinstance(tgt, ast.Name) and tgt.id == "Port" and st.value is not None:
+                        return ast.unparse(st.value).replace(" ", "").startswith("Annotated[int,")
+        return False
+
+    def runtime_closure(self) -> Set[str]:
+        """files (relative to src/primaite) imported, transitively, from the runtime entry points RUNTIME_ROOTS; importing a
+        module imports the `__init__.py` of every package on its path"""
+        if self._closure is not None:
+            return self._closure
+        by_rel = {fi.rel: fi for fi in self.files}
+
+        def mod_files(dotted: str) -> List[str]:
+            """primaite.a.b(.name) -> the files that importing it executes"""
+            parts = dotted.split(".")
+            if parts[0] != "primaite":
+                return []
+            parts = parts[1:]
+            out = ["__init__.py"]
+            for i in range(1, len(parts) + 1):
+                pkg = "/".join(parts[:i]) + "/__init__.py"
+                mod = "/".join(parts[:i]) + ".py"
+                if pkg in by_rel:
+                    out.append(pkg)
+                elif mod in by_rel:
+                    out.append(mod)
+                    break
+                else:
+                    break
+            return out
+
+        seen: Set[str] = set()
+        todo = [r for r in RUNTIME_ROOTS if r in by_rel] + ["__init__.py"]
+        while todo:
+            rel = todo.pop()
+            if rel in seen:
+                continue
+            seen.add(rel)
+            fi = by_rel[rel]
+            pkg_parts = rel.split("/")[:-1]
+            for n in ast.walk(fi.tree):
+                names: List[str] = []
+                if isinstance(n, ast.Import):
+                    names = [a.name for a in n.names]
+                elif isinstance(n, ast.ImportFrom):
+                    base = n.module or ""
+                    if n.level:
+                        up = pkg_parts[:len(pkg_parts) - (n.level - 1)] if n.level > 1 else pkg_parts
+                        base = ".".join(["primaite", *up] + ([n.module] if n.module else []))
+                    names = [base] + [f"{base}.{a.name}" for a in n.names]
+                for nm in names:
+                    for f in mod_files(nm):
+                        if f not in seen:
+                            todo.append(f)
+        self._closure = seen
+        return seen
 
 
 def _scopes(tree: ast.Module):
@@ -299,38 +757,60 @@ class ScopeAnalysis:
         for ch in ast.iter_child_nodes(self.node):
             parents[id(ch)] = self.node
 
+        F = Facts(self, parents)
         for n in _own_nodes(self.node):
             if isinstance(n, (ast.Import, ast.ImportFrom)):
                 mods = [a.name for a in n.names] if isinstance(n, ast.Import) else [n.module or ""]
                 for m in mods:
                     if m.split(".")[0] in ("threading", "multiprocessing", "concurrent", "asyncio"):
-                        out.append(("concurrency", "import " + m))
+                        out.append(("concurrency", "import " + m, ".none"))
             if isinstance(n, ast.Call):
                 q = _resolve(fi, n.func) or ""
                 short = _txt(n)
                 if q in ("uuid.uuid4", "uuid.uuid1"):
-                    out.append(("uuid", short))
+                    out.append(("uuid", short, ".none"))
                 elif q.startswith("secrets."):
-                    out.append(("secrets", short))
+                    out.append(("secrets", short, F.secret(n, q)))
                 elif q in ("datetime.datetime.now", "datetime.datetime.utcnow", "datetime.datetime.today", "datetime.date.today"):
-                    out.append(("clock", short))
+                    out.append(("clock", short, F.reading(n)))
                 elif q.startswith("time.") and q.count(".") == 1:
-                    out.append(("timeMod", short))
+                    out.append(("timeMod", short, F.reading(n)))
                 elif q in ("os.urandom", "os.getpid", "random.SystemRandom"):
-                    out.append(("urandom", short))
+                    out.append(("urandom", short, ".none"))
                 elif q.startswith("numpy.random.") or q == "numpy.random":
-                    out.append(("npRandom", short))
+                    out.append(("npRandom", short, F.draw(n, q)))
                 elif q.startswith("random.") and q.count(".") == 1:
-                    out.append(("pyRandom", short))
+                    out.append(("pyRandom", short, F.draw(n, q)))
+                elif q.startswith("torch.") and q.split(".")[-1] in TORCH_RANDOM:
+                    out.append(("torchRandom", short, F.draw(n, q)))
                 elif q in ("os.listdir", "os.walk", "os.scandir", "glob.glob", "glob.iglob") or (
                         isinstance(n.func, ast.Attribute) and n.func.attr in ("iterdir", "rglob", "glob")):
-                    out.append(("fsOrder", short))
+                    out.append(("fsOrder", short, F.offline()))
                 elif isinstance(n.func, ast.Name) and n.func.id == "id" and len(n.args) == 1:
-                    out.append(("idBuiltin", short))
+                    out.append(("idBuiltin", short, ".none"))
                 elif isinstance(n.func, ast.Name) and n.func.id == "hash" and len(n.args) == 1:
-                    out.append(("hashBuiltin", short))
+                    out.append(("hashBuiltin", short, F.hash_fact(n)))
                 elif isinstance(n.func, ast.Attribute) and _dotted(n.func.value) and _dotted(n.func.value).split(".")[-1] == "rng":
-                    out.append(("rngMethod", short))
+                    out.append(("rngMethod", short, F.draw(n, "rng." + n.func.attr)))
+                elif isinstance(n.func, ast.Attribute) and n.func.attr == "sample" and _is_space_expr(n.func.value):
+                    out.append(("spaceSample", short, F.draw(n, "space.sample")))
+                # ordering / text uses of identifiers
+                fname = n.func.id if isinstance(n.func, ast.Name) else (n.func.attr if isinstance(n.func, ast.Attribute) else "")
+                if fname in ("sorted", "min", "max", "sort", "nsmallest", "nlargest"):
+                    STATS["ordering-calls"] = STATS.get("ordering-calls", 0) + 1
+                    if _mentions_identifier(n):
+                        out.append(("idOrder", short, ".none"))
+                if fname in ("int", "len", "ord", "float") and isinstance(n.func, ast.Name) and n.args and _is_identifier_expr(n.args[0]):
+                    out.append(("idText", short, ".none"))
+                if isinstance(n.func, ast.Attribute) and n.func.attr in STR_METHODS and _is_identifier_expr(n.func.value):
+                    out.append(("idText", short, F.eq_only(n)))
+            if isinstance(n, ast.Attribute) and n.attr == "np_random":
+                out.append(("spaceSample", _txt(n), f".draw .space {_lb(F.at_call(n))} false"))
+            if isinstance(n, ast.Compare) and any(isinstance(o, (ast.Lt, ast.LtE, ast.Gt, ast.GtE)) for o in n.ops):
+                if any(_is_identifier_expr(x) for x in [n.left, *n.comparators]):
+                    out.append(("idOrder", _txt(n), ".none"))
+            if isinstance(n, ast.Subscript) and _is_identifier_expr(n.value):
+                out.append(("idText", _txt(n), F.eq_only(n)))
             # set-valued expression occurrences
             if isinstance(n, ast.expr) and self.kind_of(n) in ("set", "cont"):
                 k = self.kind_of(n)
@@ -338,9 +818,9 @@ class ScopeAnalysis:
                 use = self._use(n, p, parents)
                 STATS[use[0]] = STATS.get(use[0], 0) + 1
                 if use[0] == "iter" and k == "set":
-                    out.append(("setIter", f"{use[1]} <- {_txt(n, 70)}"))
+                    out.append(("setIter", f"{use[1]} <- {_txt(n, 70)}", F.int_set(n)))
                 elif use[0] == "escape":
-                    out.append(("setEscape", f"{use[1]} <- {_txt(n, 70)}"))
+                    out.append(("setEscape", f"{use[1]} <- {_txt(n, 70)}", F.escape(n, p, parents)))
         return out
 
     def _use(self, n: ast.AST, p: Optional[ast.AST], parents) -> Tuple[str, str]:
@@ -414,8 +894,23 @@ class ScopeAnalysis:
         return ("escape", "call " + name)
 
 
-def collect() -> List[Tuple[str, str, str, str, int]]:
-    """[(file, scope, kind, detail, occ)] sorted."""
+_MEMO: Dict[str, object] = {}
+
+
+def collect_with_facts() -> List[Tuple[str, str, str, str, int, str]]:
+    """[(file, scope, kind, detail, occ, fact)] sorted by the first five (memoised on the modification times of the tree: one run of
+    a check calls it twice)."""
+    key = repr(sorted((str(f), f.stat().st_mtime_ns) for f in SRC.rglob("*.py")))
+    if _MEMO.get("key") == key:
+        STATS.clear()
+        STATS.update(_MEMO["stats"])
+        return list(_MEMO["rows"])
+    rows = _collect_with_facts()
+    _MEMO.update(key=key, rows=list(rows), stats=dict(STATS))
+    return rows
+
+
+def _collect_with_facts() -> List[Tuple[str, str, str, str, int, str]]:
     STATS.clear()
     T = Tree()
     analyses: List[ScopeAnalysis] = []
@@ -450,22 +945,49 @@ def collect() -> List[Tuple[str, str, str, str, int]]:
     build()
     for sa in analyses:
         sa.learn()
-    raw: List[Tuple[str, str, str, str]] = []
+    raw: List[Tuple[str, str, str, str, str]] = []
+    decl_names: Dict[Tuple[str, str, str, str], Tuple[str, Optional[str], Optional[str]]] = {}  # site -> (name, file or None, function or None)
     for f, scope, detail in sorted(set(T.decls)):
-        raw.append((f, scope, "setDecl", detail))
+        raw.append((f, scope, "setDecl", detail, "?decl"))
+        nm = detail.split(" : ")[0].split(".")[-1].strip()
+        decl_names[(f, scope, "setDecl", detail)] = (nm, None, None)          # an attribute / class field: tree-wide by name
     for (f, fn, param), k in sorted(T.set_params.items()):
-        raw.append((f, fn, "setDecl", f"parameter {param} receives a {'set' if k == 'set' else 'container of sets'}"))
+        detail = f"parameter {param} receives a {'set' if k == 'set' else 'container of sets'}"
+        raw.append((f, fn, "setDecl", detail, "?decl"))
+        decl_names[(f, fn, "setDecl", detail)] = (param, f, fn)                # a parameter: inside that function of that file
     for sa in analyses:
-        for kind, detail in sa.sites():
-            raw.append((sa.fi.rel, sa.qual, kind, detail))
-    raw.sort()
-    out = []
+        for kind, detail, fact in sa.sites():
+            raw.append((sa.fi.rel, sa.qual, kind, detail, fact))
+    raw.sort(key=lambda r: r[:4])
+    out: List[Tuple[str, str, str, str, int, str]] = []
     seen: Dict[Tuple[str, str, str, str], int] = {}
     for r in raw:
-        k = seen.get(r, 0)
-        seen[r] = k + 1
-        out.append((*r, k))
+        k = seen.get(r[:4], 0)
+        seen[r[:4]] = k + 1
+        out.append((*r[:4], k, r[4]))
+    # the uses (iterations / escapes) of every declared set name, as indices into the final list
+    for i, r in enumerate(out):
+        if r[5] != "?decl":
+            continue
+        nm, f, fn = decl_names[r[:4]]
+        rx = _re.compile(r"(?<![\w])" + _re.escape(nm) + r"(?![\w])")
+        uses = []
+        for j, u in enumerate(out):
+            if u[2] not in ("setIter", "setEscape"):
+                continue
+            expr = u[3].split(" <- ", 1)[-1]
+            if not rx.search(expr):
+                continue
+            if f is not None and (u[0] != f or not (u[1] == fn or u[1].startswith(fn + ".") or ("." + fn + ".") in ("." + u[1] + "."))):
+                continue
+            uses.append(j)
+        out[i] = (*r[:5], ".declUses [" + ", ".join(map(str, uses)) + "]")
     return out
+
+
+def collect() -> List[Tuple[str, str, str, str, int]]:
+    """[(file, scope, kind, detail, occ)] sorted."""
+    return [r[:5] for r in collect_with_facts()]
 
 
 def stats() -> Dict[str, int]:
@@ -478,15 +1000,49 @@ def lean_site(s) -> str:
 
 
 def emit() -> str:
-    sites = collect()
-    if not sites:
+    rows = collect_with_facts()
+    if not rows:
         raise ValueError("empty inventory")
     L = ["namespace Primaite.Gen.Nondet",
          "/-- what kind of run-to-run variation a site could introduce -/",
          "inductive Kind\n  | " + " | ".join(KINDS) + "\n  deriving DecidableEq, Repr",
          "structure Site where\n  file : String\n  scope : String\n  kind : Kind\n  detail : String\n  occ : Nat\n  deriving DecidableEq, Repr",
-         f"/-- {len(sites)} sites, sorted by (file, scope, kind, detail, occurrence) -/",
-         "def sites : List Site := [\n  " + ",\n  ".join(lean_site(s) for s in sites) + "]",
+         "/-- generator family of a draw: python `random`, numpy's global generator, torch, a Generator derived from a numpy draw,\n"
+         "a generator seeded from OS entropy, gymnasium's per-space generator -/",
+         "inductive Fam\n  | " + " | ".join(FAMS) + "\n  deriving DecidableEq, Repr",
+         "/-- what the extractor established mechanically about a site -/",
+         "inductive Fact\n"
+         "  | none\n"
+         "  /-- a draw from family `fam`; `atCall` = evaluated inside a function/lambda body (not at import); `guarded` = inside `if generate_seed_value:` -/\n"
+         "  | draw (fam : Fam) (atCall : Bool) (guarded : Bool)\n"
+         "  /-- a seeding call of family `fam` with the given argument text -/\n"
+         "  | seedCall (fam : Fam) (arg : String) (atCall : Bool)\n"
+         "  /-- `secrets.token_urlsafe(n)` with a constant `n` -/\n"
+         "  | constSecret (nbytes : Nat)\n"
+         "  /-- every place the reading's value flows to (syntactic forward data-flow): path / show / log, or other:… -/\n"
+         "  | sinks (l : List String)\n"
+         "  /-- the set display is the keyword argument `kw` of a call of `callee` -/\n"
+         "  | kwarg (callee : String) (kw : String)\n"
+         "  | singletonDisplay\n"
+         "  /-- the text derived from the identifier is only an operand of `==` / `!=` / `in` -/\n"
+         "  | cmpEqOnly\n"
+         "  /-- the module is not in the import closure of session/environment.py, session/ray_envs.py, game/game.py -/\n"
+         "  | offlineModule\n"
+         "  /-- a declared set name: the indices (into `sites`) of all its iterations / escapes -/\n"
+         "  | declUses (idx : List Nat)\n"
+         "  /-- an iterated set whose element annotation resolves to ints only -/\n"
+         "  | intSet (leaves : String)\n"
+         "  /-- the iterated attribute is never assigned, mutated or passed as a constructor keyword anywhere in the tree -/\n"
+         "  | neverWritten\n"
+         "  /-- `return hash(<arg>)` as the body of a `__hash__` method -/\n"
+         "  | hashDunder (arg : String)\n"
+         "  /-- the call is an expression STATEMENT: its value is discarded -/\n"
+         "  | valueDiscarded\n"
+         "  deriving DecidableEq, Repr",
+         f"/-- {len(rows)} sites, sorted by (file, scope, kind, detail, occurrence) -/",
+         "def sites : List Site := [\n  " + ",\n  ".join(lean_site(r[:5]) for r in rows) + "]",
+         "/-- one fact per site, same order -/",
+         "def facts : List Fact := [\n  " + ",\n  ".join(r[5] for r in rows) + "]",
          "end Primaite.Gen.Nondet"]
     return "\n".join(L) + "\n"
 
@@ -503,6 +1059,6 @@ if __name__ == "__main__":
     if "--skeleton" in sys.argv:
         print(skeleton())
     else:
-        for s_ in collect():
+        for s_ in collect_with_facts():
             print(s_)
         print(stats(), file=sys.stderr)
